@@ -7,5 +7,6 @@ import Resvg.Props.C10
 import Resvg.Props.C11
 import Resvg.Props.C13
 import Resvg.Props.C14
+import Resvg.Props.C15
 import Resvg.Props.C16
 import Resvg.Props.C17
